@@ -21,11 +21,10 @@ component by component:
 * path: `normPath = pathTail ∘ normpath ∘ unquotePath` once `strip_trailing_slash` is on; the
   canonical path is `normpath (unquotePath path)` up to a trailing slash and the root rule
   (`PathHyp`: the three facts about `normpath` that are proved in `Lemmas/Normpath.lean`);
-* query: the items are unquoted before they are filtered and sorted; canonicalisation
-  unquotes the same items (`items_canonQuery`).  Two steps read something canonicalisation does
-  NOT preserve — `fix_common_query_mistakes` runs on the still-escaped query (`MistakeStable`)
-  and the per-domain filter is chosen from the still-encoded hostname (`DomainStable`): both
-  are explicit hypotheses, both fail on concrete inputs (witnesses in `Props/C03.lean`);
+* query: the query is unescaped item by item and re-serialised (= its canonical form) before
+  `&amp;` is repaired, and the repaired query's items are unquoted before they are filtered and
+  sorted: `canonQuery` is idempotent (`canonQuery_idem`, `items_canonQuery`); the per-domain
+  filter is chosen from the decoded hostname (`filterHost`), and decoding is idempotent;
 * fragment: unquoted before the routing test; unquoting is idempotent.
 -/
 namespace Ural.C03
@@ -69,7 +68,7 @@ theorem flush_ne_nil (b : UInt8) (bs : List UInt8) : flush (b :: bs) ≠ [] := b
   | none => simp [segment.go, h, List.flatMap_cons]
   | some c =>
     simp only [segment.go, h, List.flatMap_cons]
-    by_cases hc : isC1 c = true
+    by_cases hc : staysEscaped c = true
     · simp only [hc, if_true]
       have : utf8 c ≠ [] := by
         unfold utf8
@@ -116,23 +115,29 @@ theorem safelyUnquote_eq_nil {U : List UInt8} {s : Str} (h : safelyUnquote U s =
 
 /-! ## the path -/
 
-/-- the three facts about `normpath` on an unquoted path that the factorisation needs (proved
-in `Lemmas/Normpath.lean`; an explicit hypothesis here): resolution keeps the canonical
-escaping, is idempotent, and a trailing slash put back on a non-empty resolved path is
-dropped again -/
-def PathHyp : Prop := ∀ x : Str,
+/-- an absolute (or empty) path: what the parser returns for every URL with an authority -/
+def absP (p : Str) : Bool := p.isEmpty || startsWith p ['/']
+
+/-- the three facts about `normpath` on an unquoted absolute path that the factorisation needs
+(proved in `Lemmas/Normpath.lean`: `unq_normpath`, `normpath_idem`, `normpath_append_slash` with
+`absPath_unquotePath`; an explicit hypothesis here): resolution keeps the canonical escaping, is
+idempotent, and a trailing slash put back on a non-empty resolved path is dropped again -/
+def PathHyp : Prop := ∀ x : Str, absP x = true →
   unquotePath (normpath (unquotePath x)) = normpath (unquotePath x) ∧
   normpath (normpath (unquotePath x)) = normpath (unquotePath x) ∧
   (normpath (unquotePath x) ≠ [] →
     normpath (normpath (unquotePath x) ++ ['/']) = normpath (unquotePath x))
 
-theorem resolvePath_true (path : Str) : resolvePath true path = normpath (unquotePath path) := by
-  unfold resolvePath
-  by_cases h : (unquotePath path).isEmpty = true
-  · have : unquotePath path = [] := by simpa using h
-    simp only [this]
+theorem resolveUnquoted_true (y : Str) : resolveUnquoted true y = normpath y := by
+  unfold resolveUnquoted
+  by_cases h : y.isEmpty = true
+  · have : y = [] := by simpa using h
+    subst this
     decide
   · simp [h]
+
+/-- the `lowercase` step of `fingerprint_url`'s call -/
+def lc (o : Opts) (y : Str) : Str := if o.lowercase then lower y else y
 
 /-- what `normalize_url` does to the resolved path when `strip_trailing_slash` is on and
 `quoted` is off: AMP suffixes, index file, trailing slashes, canonical escaping -/
@@ -154,16 +159,19 @@ theorem root_rule_subsumed (x : Str) (c : Prop) [Decidable c] :
   · simp [hx]
 
 /-- with `strip_trailing_slash` the path of the result depends on the input path only through
-`normpath (unquotePath path)` — in particular not on the query or the fragment -/
+`normpath` of the unquoted (and, for `fingerprint_url`, lower-cased) path — in particular not on
+the query or the fragment -/
 theorem normPath_eq (o : Opts) (hsts : o.stripTrailingSlash = true) (hq : o.quoted = false)
     (path fragment query : Str) :
-    normPath o path fragment query = pathTail o.normalizeAmp o.stripIndex (normpath (unquotePath path)) := by
-  unfold normPath pathSteps pathTail
-  simp only [hsts, hq, resolvePath_true, Bool.true_and, Bool.false_eq_true, if_false]
+    normPath o path fragment query =
+      pathTail o.normalizeAmp o.stripIndex (normpath (lc o (unquotePath path))) := by
+  unfold normPath pathSteps pathTail lc
+  simp only [hsts, hq, resolveUnquoted_true, Bool.true_and, Bool.false_eq_true, if_false]
+  generalize (if o.lowercase = true then lower (unquotePath path) else unquotePath path) = y
   have := root_rule_subsumed
     (if o.stripIndex = true then
-      stripIndex (if o.normalizeAmp = true then ampSuffixSub (normpath (unquotePath path)) else normpath (unquotePath path))
-     else (if o.normalizeAmp = true then ampSuffixSub (normpath (unquotePath path)) else normpath (unquotePath path)))
+      stripIndex (if o.normalizeAmp = true then ampSuffixSub (normpath y) else normpath y)
+     else (if o.normalizeAmp = true then ampSuffixSub (normpath y) else normpath y))
     (fragment.isEmpty = true ∧ query.isEmpty = true)
   simp only at this
   rw [this]
@@ -176,12 +184,12 @@ theorem sep_slash' : Sep '/' := ⟨by decide, by decide⟩
 
 /-- the path that `canonicalize_url` prints resolves, in `normalize_url`, to what the input
 path resolves to — up to the root rule -/
-theorem normpath_canonPath (hPH : PathHyp) (path : Str) (hm : Bool) :
+theorem normpath_canonPath (hPH : PathHyp) (path : Str) (hAbs : absP path = true) (hm : Bool) :
     normpath (unquotePath (unquotePath (canonPath path hm))) = normpath (unquotePath path) ∨
     ((normpath (unquotePath path) = [] ∨ normpath (unquotePath path) = ['/']) ∧
      (normpath (unquotePath (unquotePath (canonPath path hm))) = [] ∨
       normpath (unquotePath (unquotePath (canonPath path hm))) = ['/'])) := by
-  obtain ⟨h1, h2, h3⟩ := hPH path
+  obtain ⟨h1, h2, h3⟩ := hPH path hAbs
   generalize hnp : normpath (unquotePath path) = np at h1 h2 h3
   by_cases hroot : np = [] ∨ np = ['/']
   · right
@@ -223,10 +231,12 @@ theorem normpath_canonPath (hPH : PathHyp) (path : Str) (hm : Bool) :
 
 /-- path clause of the factorisation -/
 theorem normPath_canon (hPH : PathHyp) (o : Opts) (hsts : o.stripTrailingSlash = true)
-    (hq : o.quoted = false) (path : Str) (hm : Bool) (f q f' q' : Str) :
+    (hq : o.quoted = false) (hlc : o.lowercase = false) (path : Str) (hAbs : absP path = true)
+    (hm : Bool) (f q f' q' : Str) :
     normPath o (unquotePath (canonPath path hm)) f' q' = normPath o path f q := by
   rw [normPath_eq o hsts hq, normPath_eq o hsts hq]
-  rcases normpath_canonPath hPH path hm with h | ⟨h1, h2⟩
+  simp only [lc, hlc, Bool.false_eq_true, if_false]
+  rcases normpath_canonPath hPH path hAbs hm with h | ⟨h1, h2⟩
   · rw [h]
   · rcases h1 with h1 | h1 <;> rcases h2 with h2 | h2 <;> rewrite [h1, h2]
     · exact rfl
@@ -304,15 +314,28 @@ theorem fixMistakes_isEmpty (q : Str) : (fixCommonQueryMistakes q).isEmpty = q.i
     unfold fixCommonQueryMistakes fixMistakesFrom
     split <;> rfl
 
-/-- `fixedQuery` without its (redundant) emptiness test -/
-def fixQ (o : Opts) (q : Str) : Str := if o.fixCommonMistakes then fixCommonQueryMistakes q else q
+theorem canonQuery_eq (q : Str) :
+    canonQuery false q = safeSerializeQsl (unquoteQsl (safeQslIter q)) := by
+  simp [canonQuery]
+
+/-- canonicalising the canonical query changes nothing -/
+theorem canonQuery_idem (q : Str) : canonQuery false (canonQuery false q) = canonQuery false q := by
+  rw [canonQuery_eq (canonQuery false q), items_canonQuery, ← canonQuery_eq]
+
+/-- `fixedQuery` without its (redundant) emptiness test: the query is unescaped item by item
+and re-serialised (its canonical form) before `&amp;` is repaired -/
+def fixQ (o : Opts) (q : Str) : Str :=
+  if o.fixCommonMistakes then fixCommonQueryMistakes (canonQuery false q) else q
 
 theorem fixedQuery_eq (o : Opts) (p : Parsed) : fixedQuery o p = fixQ o p.query := by
   unfold fixedQuery fixQ
+  rw [← canonQuery_eq]
   by_cases h : o.fixCommonMistakes = true
   · by_cases h2 : p.query.isEmpty = true
     · have : p.query = [] := by simpa using h2
-      simp [h, this, fixMistakes_nil]
+      rw [this]
+      simp only [h, Bool.true_and, List.isEmpty_nil, Bool.not_true, Bool.false_eq_true, if_false, if_true]
+      decide
     · simp [h, h2]
   · simp [h]
 
@@ -330,22 +353,15 @@ theorem domainFilter_getD (h : Option Str) : domainFilter h = domainFilter (some
 
 /-- query clause of the factorisation -/
 theorem filterQuery_canon (o : Opts) (h h' : Option Str) (q : Str)
-    (hd : domainFilter h' = domainFilter h)
-    (hMS : o.fixCommonMistakes = true → MistakeStable q) :
+    (hd : domainFilter h' = domainFilter h) :
     filterQuery o h' (fixQ o (canonQuery false q)) = filterQuery o h (fixQ o q) := by
-  apply filterQuery_congr o h h' _ _ hd
-  · unfold fixQ
-    by_cases hf : o.fixCommonMistakes = true
-    · simp only [hf, if_true]
-      rw [fixMistakes_isEmpty, fixMistakes_isEmpty, canonQuery_isEmpty]
-    · simp only [hf, Bool.false_eq_true, if_false]
-      exact canonQuery_isEmpty q
-  · unfold fixQ
-    by_cases hf : o.fixCommonMistakes = true
-    · simp only [hf, if_true]
-      rw [hMS hf, items_canonQuery]
-    · simp only [hf, Bool.false_eq_true, if_false]
-      exact items_canonQuery q
+  unfold fixQ
+  by_cases hf : o.fixCommonMistakes = true
+  · simp only [hf, if_true, canonQuery_idem]
+    unfold filterQuery
+    rw [hd]
+  · simp only [hf, Bool.false_eq_true, if_false]
+    exact filterQuery_congr o h h' _ _ hd (canonQuery_isEmpty q) (items_canonQuery q)
 
 /-! ## the host -/
 
@@ -420,18 +436,26 @@ theorem reparses_reparse (c : Canonicalize.Comps) : Reparses c (reparse c) :=
 
 theorem unquoteFragment_nil : unquoteFragment [] = [] := by decide
 
+/-- the hostname the per-domain query filter looks at -/
+def filterHost (puny : Str → Str) (h : Option Str) : Option Str :=
+  h.map fun h => if h.isEmpty then h else canonHost puny h
+
+theorem filterHost_getD (puny : Str → Str) (h : Option Str) :
+    (filterHost puny h).getD [] = (if (h.getD []).isEmpty then h.getD [] else canonHost puny (h.getD [])) := by
+  cases h with
+  | none => rfl
+  | some s => rfl
+
 /-- **the factorisation** (unquoted mode, `strip_protocol`, `strip_authentication`,
-`strip_trailing_slash` on — the defaults —, every other option free): `normalize_url` computes
-from any re-parse `p'` of the canonical components of `p` (canonicalised under ANY scheme `s0`:
-canonicalize_url assumes `https` where normalize_url assumes `http`) exactly what it computes
-from `p` -/
+`strip_trailing_slash` on — the defaults —, every other documented option free): `normalize_url`
+computes from any re-parse `p'` of the canonical components of `p` (canonicalised under ANY
+scheme `s0`: canonicalize_url assumes `https` where normalize_url assumes `http`) exactly what it
+computes from `p` -/
 theorem normParts_reparse_canon (puny : Str → Str) (hp : PunyLaws puny) (hPH : PathHyp)
     (o : Opts) (hsp : o.stripProtocol = true) (hsa : o.stripAuthentication = true)
-    (hsts : o.stripTrailingSlash = true) (hq : o.quoted = false)
-    (p p' : Parsed) (s0 : Str)
-    (hR : Reparses (canonComps puny false false { p with scheme := s0 }) p')
-    (hDS : DomainStable puny p.hostname)
-    (hMS : o.fixCommonMistakes = true → MistakeStable p.query) (b b' : Bool) :
+    (hsts : o.stripTrailingSlash = true) (hq : o.quoted = false) (hlc : o.lowercase = false)
+    (p p' : Parsed) (hAbs : absP p.path = true) (s0 : Str)
+    (hR : Reparses (canonComps puny false false { p with scheme := s0 }) p') (b b' : Bool) :
     normParts puny o b' p' = normParts puny o b p := by
   obtain ⟨hpath, hquery, hfrag, hhost, hport⟩ := hR
   simp only [canonComps] at hpath hquery hfrag hhost hport
@@ -452,21 +476,21 @@ theorem normParts_reparse_canon (puny : Str → Str) (hp : PunyLaws puny) (hPH :
     | some h => by_cases he : h.isEmpty = true <;> simp [he]
   have hhostN : (p'.hostname.map (normHost puny o)).getD [] = (p.hostname.map (normHost puny o)).getD [] := by
     rw [map_normHost_getD, map_normHost_getD, hh', normHost_canon puny hp]
-  -- domain filter
-  have hdf : domainFilter p'.hostname = domainFilter p.hostname := by
-    rw [domainFilter_getD p'.hostname, hh', ← hDS]
-    cases hH : p.hostname with
-    | none => rfl
-    | some h =>
-      by_cases he : h.isEmpty = true
-      · have : h = [] := by simpa using he
-        subst this
-        rfl
-      · simp [he]
+  -- domain filter: chosen from the decoded hostname, and decoding is idempotent
+  have hdf : domainFilter (filterHost puny p'.hostname) = domainFilter (filterHost puny p.hostname) := by
+    rw [domainFilter_getD (filterHost puny p'.hostname), domainFilter_getD (filterHost puny p.hostname),
+      filterHost_getD, filterHost_getD, hh']
+    by_cases he : (p.hostname.getD []).isEmpty = true
+    · simp [he]
+    · simp only [he, Bool.false_eq_true, if_false]
+      by_cases hc : (canonHost puny (p.hostname.getD [])).isEmpty = true
+      · simp [hc]
+      · simp only [hc, Bool.false_eq_true, if_false, canonHost_idem puny hp]
   -- query
-  have hqs : filterQuery o p'.hostname (fixedQuery o p') = filterQuery o p.hostname (fixedQuery o p) := by
+  have hqs : filterQuery o (filterHost puny p'.hostname) (fixedQuery o p')
+      = filterQuery o (filterHost puny p.hostname) (fixedQuery o p) := by
     rw [fixedQuery_eq, fixedQuery_eq, hquery]
-    exact filterQuery_canon o _ _ _ hdf hMS
+    exact filterQuery_canon o _ _ _ hdf
   -- port
   have hpt : normPort p'.port = normPort p.port := by
     rw [hport]; exact normPort_canon s0 p.port
@@ -474,9 +498,13 @@ theorem normParts_reparse_canon (puny : Str → Str) (hp : PunyLaws puny) (hPH :
   have hpa : ∀ f q f' q', normPath o p'.path f' q' = normPath o p.path f q := by
     intro f q f' q'
     rw [hpath]
-    exact normPath_canon hPH o hsts hq p.path _ f q f' q'
+    exact normPath_canon hPH o hsts hq hlc p.path hAbs _ f q f' q'
   unfold normParts normComps
-  simp only [hsp, hsa, hq, Bool.true_or, if_true, Bool.false_eq_true, if_false, hf', hqs]
+  simp only [hsp, hsa, hq, hlc, Bool.true_or, if_true, Bool.false_eq_true, if_false, hf']
+  have hqs' := hqs
+  unfold filterHost at hqs'
+  simp only [canonHost] at hqs'
+  rw [hqs']
   congr 1
   · rw [unsplitNetloc_host none none (p'.hostname.map _), unsplitNetloc_host none none (p.hostname.map _),
       hhostN]
